@@ -53,7 +53,7 @@ PHASES3 = ("before_bar", "on_bar", "after_bar")
 
 
 def plan(tier, seed):
-    n = 96 if tier == "quick" else 1560
+    n = 160 if tier == "quick" else 1560
     return [{"shard": i, "cases": n} for i in range(NSHARDS)]
 
 
